@@ -64,6 +64,10 @@ def cmd(rng, hdr, scal=False, prevopts=None, prevfmt=2):
         # the previous header may itself have been sent without OPPTYPE (a chain of UFEP = 000 headers): the modes in
         # force are still the ones it reports
         c["prev"] = {"optnames": prevopts, "fmt": prevfmt, "w": 16, "h": 16, "plus": True, "opp": prevfmt != -1 and rng.random() < 0.5}
+        # ... or a baseline header (no PLUSPTYPE at all): PTYPE bits 10-12 are the same modes as OPPTYPE bits 4-6 and are
+        # inherited in the same way by a following UFEP = 000 header (seeded change C06-7A)
+        if prevfmt in (1, 2, 3) and set(prevopts) <= set(OPP[:3]) and rng.random() < 0.6:
+            c["prev"].update(plus=False, opp=False)
     return c
 
 
@@ -190,6 +194,8 @@ def inheritance(rng, n):
     out = []
     for i in range(n):
         prev = [o for o in OPP if rng.random() < 0.4]
+        if i % 3 == 0:
+            prev = [o for o in prev if o in OPP[:3]] or [OPP[i // 3 % 3]]   # what a baseline header can carry
         h = rand_plus(rng, ufep=0)
         # as in a real stream the previous header carried a format (i % 4 != 0); with i % 4 == 0 it did not
         out.append(cmd(rng, h, scal=rng.random() < 0.3, prevopts=prev, prevfmt=(rng.choice([1, 2, 3, 6]) if i % 4 else -1)))
